@@ -111,6 +111,26 @@ def check(ctx):
             texts += [b_ + w_, w_ + b_, b_.replace("=", "=" + w_, 1)]
     for s in texts: cases.append(("txt", s))
 
+    # ---- identifiers outside the model's alphabet (decimal digits of other scripts, which str.isdigit accepts; thousands of digits; very long strings):
+    #      judged by the property itself on the implementation - whatever NodeId the constructor accepts is printed and parsed back as itself
+    from opcua_tools.ua_data_types import UANodeId as _N
+    exotic = [(1, "i", "\uff11\uff12\uff13"), (0, "i", "\u0663\u0664"), (2, "i", "\u0967\u0966"), (1, "i", "9" * 5000), (3, "s", "x" * 70000), (1, "s", "\uff11\uff12\uff13"),
+              (1, "g", "\u0663"), (0, "b", "\uff11"), (1, "i", "123"), (1, "s", "\u00b2"), (1, "i", "1" + "0" * 4400)]
+    printed_ = {}
+    for ns_, t_, v_ in exotic:
+        try: n_ = _N(ns_, t_, v_)
+        except Exception: continue                      # not a NodeId of the library: nothing to round-trip
+        ctx.record(["exotic", ns_, t_, v_[:20], len(v_)], True, ["exotic-identifier", "type-" + t_])
+        case_ = dict(kind="exotic", ns=ns_, t=t_, v=v_ if len(v_) < 200 else [v_[0], len(v_)])
+        try: txt_ = str(n_)
+        except Exception as e_:
+            ctx.fail("C09/roundtrip", case_, "printing an accepted NodeId raised %s" % type(e_).__name__); continue
+        if txt_ in printed_ and printed_[txt_] != (ns_, t_, v_): ctx.fail("C09/roundtrip", case_, "two different NodeIds print as the same text %r" % txt_[:60])
+        printed_[txt_] = (ns_, t_, v_)
+        for nm_ in (None, {ns_: ns_ + 5, 0: 0}):
+            back_ = impl_parse(txt_, list(nm_.items()) if nm_ else None, None)
+            want_ = ["ok", [ns_ if nm_ is None else nm_[ns_], t_, v_]]
+            if back_ != want_: ctx.fail("C09/roundtrip", case_, "printed and parsed back as %r" % (str(back_)[:120],))
     # ---- run implementation
     reqs = []; impl = []
     for kind, p in cases:
